@@ -127,7 +127,15 @@ def lean_gate(pid):
     if r.returncode != 0:
         errors.append("lake build Bt.Props.%s failed: %s" % (pid, (r.stdout + r.stderr)[-1500:]))
         return [], errors
+    # the property's theorems: Props/Cxx.lean plus optional fragments Props/Cxx_*.lean (imported by Cxx.lean)
+    frag_dir = os.path.join(LEAN_DIR, "Bt", "Props")
+    frags = sorted(f for f in os.listdir(frag_dir) if f.startswith(pid + "_") and f.endswith(".lean"))
     names = theorem_names(props_file)
+    main_txt = open(props_file).read()
+    for f in frags:
+        if ("import Bt.Props." + f[:-5]) not in main_txt:
+            errors.append("fragment %s is not imported by Props/%s.lean" % (f, pid))
+        names += theorem_names(os.path.join(frag_dir, f))
     audit = os.path.join(LEAN_DIR, ".lake", "Audit_%s.lean" % pid)
     with open(audit, "w") as f:
         f.write("import Bt.Props.%s\n" % pid)
